@@ -1,7 +1,11 @@
 /-! The manifest's two protocols as system-call lists: `apply` (append the edit, `sync_data`, return)
-    and `rollover` (hard-link MANIFEST to a backup, write the rolled-up state to a temporary, sync
-    it, rename it over MANIFEST), with crashes between calls.  States and edits are abstract; the
-    text format is `Blue.Mani`. -/
+    and `rollover` (hard-link MANIFEST to a backup, remove a left-over temporary, write the
+    rolled-up state to the temporary, sync it, rename it over MANIFEST), with crashes between
+    calls.  States and edits are abstract; the text format is `Blue.Mani`.
+
+    `linked` records that MANIFEST and the newest backup are the same file (between the `link` and
+    the `rename` of a rollover); the repaired `Manifest::open` (D-13) finishes such an interrupted
+    rollover instead of starting another one. -/
 namespace Blue.ManiCrash
 
 structure Algebra (St E : Type) where
@@ -17,12 +21,14 @@ structure Fs (E : Type) where
   mani : FileSt E
   tmp : Option (FileSt E)
   backups : List (List E)
+  linked : Bool := false
 
 inductive Op (E : Type) where
   | append (e : E)
   | sync
   | ack
   | linkBackup
+  | tmpClear
   | tmpWrite (e : E)
   | tmpSync
   | rename
@@ -33,11 +39,14 @@ def step (fs : Fs E) : Op E → Fs E
   | .append e => { fs with mani := { fs.mani with pending := fs.mani.pending ++ [e] } }
   | .sync => { fs with mani := ⟨fs.mani.durable ++ fs.mani.pending, []⟩ }
   | .ack => fs
-  | .linkBackup => { fs with backups := fs.backups ++ [fs.mani.durable ++ fs.mani.pending] }
-  | .tmpWrite e => { fs with tmp := some ⟨[], [e]⟩ }
+  | .linkBackup => { fs with backups := fs.backups ++ [fs.mani.durable ++ fs.mani.pending], linked := true }
+  | .tmpClear => { fs with tmp := none }          -- `if tmp.exists() { remove_file(tmp) }`
+  | .tmpWrite e => match fs.tmp with               -- `OpenOptions::create(true).append(true)` + `write_all`
+    | none => { fs with tmp := some ⟨[], [e]⟩ }
+    | some f => { fs with tmp := some { f with pending := f.pending ++ [e] } }
   | .tmpSync => { fs with tmp := fs.tmp.map (fun f => ⟨f.durable ++ f.pending, []⟩) }
   | .rename => match fs.tmp with
-    | some f => { fs with mani := f, tmp := none }
+    | some f => { fs with mani := f, tmp := none, linked := false }
     | none => fs
 
 def run (fs : Fs E) (ops : List (Op E)) : Fs E := ops.foldl step fs
@@ -59,7 +68,7 @@ inductive Client (E : Type) where
 /-- the client's in-memory state is the replay of the edits applied so far -/
 def block (A : Algebra St E) (sofar : List E) : Client E → List (Op E)
   | .edit e => [.append e, .sync, .ack]
-  | .rollover => [.linkBackup, .tmpWrite (A.rollup (replay A sofar)), .tmpSync, .rename]
+  | .rollover => [.linkBackup, .tmpClear, .tmpWrite (A.rollup (replay A sofar)), .tmpSync, .rename]
 
 def sofarAfter (sofar : List E) : Client E → List E
   | .edit e => sofar ++ [e]
@@ -73,6 +82,25 @@ def editsOf : List (Client E) → List E
   | [] => []
   | .edit e :: cs => e :: editsOf cs
   | .rollover :: cs => editsOf cs
+
+/-- the directory a crash leaves behind: (a) every completed call persists, (b) bytes written but
+    not synced are lost (directory operations persist in both) -/
+def crashA (fs : Fs E) : Fs E :=
+  { fs with mani := ⟨fs.mani.durable ++ fs.mani.pending, []⟩,
+            tmp := fs.tmp.map (fun f => ⟨f.durable ++ f.pending, []⟩) }
+def crashB (fs : Fs E) : Fs E :=
+  { fs with mani := ⟨fs.mani.durable, []⟩, tmp := fs.tmp.map (fun f => ⟨f.durable, []⟩) }
+
+/-- the rollover `Manifest::open` performs on an existing MANIFEST, as repaired (D-13): if the
+    newest backup is the same file as MANIFEST the previous rollover died between `link` and
+    `rename` and is finished without a second link -/
+def reopenOps (A : Algebra St E) (fs : Fs E) : List (Op E) :=
+  (if fs.linked then [] else [Op.linkBackup]) ++
+    [.tmpClear, .tmpWrite (A.rollup (replay A (fs.mani.durable ++ fs.mani.pending))), .tmpSync, .rename]
+
+/-- … and as it was: always a complete rollover -/
+def reopenOpsAsIs (A : Algebra St E) (fs : Fs E) : List (Op E) :=
+  [.linkBackup, .tmpClear, .tmpWrite (A.rollup (replay A (fs.mani.durable ++ fs.mani.pending))), .tmpSync, .rename]
 
 def acked (ops : List (Op E)) : Nat := (ops.filter (fun o => match o with | .ack => true | _ => false)).length
 def appended (ops : List (Op E)) : Nat := (ops.filter (fun o => match o with | .append _ => true | _ => false)).length
